@@ -1,12 +1,15 @@
 """C11 - pooled-buffer ownership: the HTTP response leg (resp_props) and the WebSocket codec leg
 (ws_props scenarios under the tracking allocator)."""
-from .. import resp_props, ws_props, common
+from .. import resp_props, ws_props, ws_e2e, common
 
 
 def run(res, scratch, *, tier, seed, replay):
     if replay:
         import json
-        sc = json.load(open(replay))["script"]
+        rp = json.load(open(replay))
+        if rp.get("leg") == "e2e":
+            return ws_e2e.run(res, scratch, "C11", tier, seed, only=rp["script"])
+        sc = rp["script"]
         if sc.get("mode") in ("C12", "C13", "C15"):
             return ws_props.run_focus(res, scratch, "C11", tier=tier, seed=seed, replay=replay)
         return resp_props.run_focus(res, scratch, "C11", tier=tier, seed=seed, replay=replay)
@@ -20,3 +23,5 @@ def run(res, scratch, *, tier, seed, replay):
     cases += ws_props.c15_cases(tier, seed, "C11")
     ws_props.run_cases(res, scratch, binary, cases, "C11")
     res.coverage["distinct_nontrivial"] += len(cases)
+    # real servers with the tracking allocator behind Config.BodyAllocator and mempool.DefaultMemPool
+    ws_e2e.run(res, scratch, "C11", tier, seed)
